@@ -103,7 +103,9 @@ def run_psd(key):
     for i in range(nd):
         if order[i] is None:
             order[i] = next(it)
-    obs = np.ascontiguousarray(np.transpose(obs_c, order))
+    # negative axis indices are combined with transposed views of the canonical buffers (as a caller would pass
+    # the result of moveaxis / swapaxes), positive ones with fresh C-contiguous arrays
+    obs = np.transpose(np.array(obs_c), order) if neg else np.ascontiguousarray(np.transpose(obs_c, order))
     mask_c = None
     mask = None
     src = kind.startswith('src')
@@ -116,7 +118,8 @@ def run_psd(key):
             for i in range(nd):
                 if morder[i] is None:
                     morder[i] = next(it)
-            mask = np.ascontiguousarray(np.transpose(mask_c, morder))
+            mask = np.transpose(np.array(mask_c), morder) if neg else \
+                np.ascontiguousarray(np.transpose(mask_c, morder))
         else:
             mask = mask_c.copy()
     kw = dict(sensor_dim=s - nd if neg else s, time_dim=t - nd if neg else t, normalize=normalize)
